@@ -51,6 +51,28 @@ def hasChangedRun (w : World) (t v : Nat) (st : Option Nat) : List HCase → Opt
 
 def hasChangedGen (w : World) (t v : Nat) (st : Option Nat) : Option Bool := hasChangedRun w t v st hasChangedCases
 
+/-- `_create_or_update_state`. -/
+def upsertGen (db : DB) (k : Nat × Nat) (h : Nat) : DB :=
+  match lookup db k with
+  | none => if upsertAddsWhenAbsent then insert db k h else db
+  | some _ => if upsertOverwritesWhenPresent then insert db k h else db
+
+def rowKeyGen (t v : Nat) : Nat × Nat :=
+  if updateRowKey == ["task", "node"] then (tv t, v) else (v, tv t)
+
+/-- The row loop of `update_states_in_database` over the given neighbours, started in world `w0`. A node without state
+cannot be stored (`hash_` is NOT NULL): the call raises, and — all rows being one transaction
+(`Generated.rowsSingleTransaction`, section extract_crash) — nothing of it is recorded. -/
+def updateRowsGen (P : Project) (w0 : World) (t : Nat) : World → List Nat → World × Bool
+  | w, [] => (w, true)
+  | w, v :: vs => match stateOf P w v with
+    | none => (if Generated.rowsSingleTransaction then w0 else w, false)
+    | some h => updateRowsGen P w0 t { w with db := upsertGen w.db (rowKeyGen t v) h } vs
+
+def updateStatesGen (P : Project) (g : G) (w : World) (t : Nat) (vs : List Nat) : World × Bool :=
+  let _ := g
+  updateRowsGen P w t w vs
+
 /-- `update_states_in_database` as called from the report hooks. -/
 def recordStatesGen (P : Project) (g : G) (cfg : Cfg) (w : World) (t : Nat) : World × Bool :=
   if updateStatesSkipsDryRun && cfg.dry then (w, true) else updateStates P g w t (neighboursGen g t)
